@@ -7,6 +7,7 @@ import resgen
 import wgslgen as W
 
 ID = "C02"
+TABLES = ["buffer_binding", "storage_access"]      # leaf tables compared exhaustively through the hooks (coq/Check/Tables.v)
 VALIDATE_MIX = True
 REQUIRES = ["Agree", "C02Spec", "C02Proof"]
 THEOREM_REQUIRES = ["C02"]
